@@ -43,9 +43,12 @@ PropStep(s) ==
     [] OTHER -> [s EXCEPT !.pc = "decide", !.stut = FALSE]
 
 \* ---------------------------------------------------------------- decide
-DecideSet(s) ==
-  { [s EXCEPT !.asg[v] = [val |-> TRUE, dec |-> TRUE, lvl |-> s.level + 1, rsn |-> 0, on |-> TRUE],
-              !.level = s.level + 1, !.pc = "propagate"] : v \in { v \in DOMAIN s.asg : ~s.asg[v].on } }
+DecideVar(s, v) == [s EXCEPT !.asg[v] = [val |-> TRUE, dec |-> TRUE, lvl |-> s.level + 1, rsn |-> 0, on |-> TRUE],
+                               !.level = s.level + 1, !.pc = "propagate"]
+DecideSet(s) == { DecideVar(s, v) : v \in { v \in DOMAIN s.asg : ~s.asg[v].on } }
+\* the same with the iteration order of the set `variables` given (the driver records it for every call)
+DecideOrd(s, ord) == LET js == { j \in 1..Len(ord) : ord[j] \in DOMAIN s.asg /\ ~s.asg[ord[j]].on } IN
+                     IF js = {} THEN CHOOSE t \in DecideSet(s) : TRUE ELSE DecideVar(s, ord[Min(js)])
 
 \* ---------------------------------------------------------------- analyze_conflict / backtrack
 LitLess(a, b) == a[1] < b[1] \/ (a[1] = b[1] /\ ~a[2] /\ b[2])
